@@ -1,6 +1,6 @@
 """C07 (schedule independence) and C08 (per-file isolation): graph.Initialize on project variants,
 forced arrival orders through the verif hooks, the extracted Coq `collect`, real permission faults."""
-import json, os, random, shutil, stat, subprocess, time
+import json, os, random, re, shutil, stat, subprocess, time
 from collections import Counter
 from common import *
 import javagen, qrun, scan
@@ -119,8 +119,19 @@ def check_c07(pid, tier, seed, res, work):
     # (number of files, entries that cannot be read: dangling links named *.java sorting first / in the middle / last)
     plan = [(n, []) for n in sizes] + [(0, ['Gone.java']), (1, ['zz/Gone.java']), (2, ['0first/Gone.java', 'zz/Last.java']), (3, ['a/Mid.java']),
                                        (0, ['A.java', 'B.java'])] + ([(7, ['a/Mid.java', 'zz/Last.java']), (12, ['0first/Gone.java'])] if tier == 'thorough' else [])
+    if tier == 'thorough':
+        plan.append((5, 'slow'))     # seconds of parsing per file: thorough tier only
     for pi, (n, dangling) in enumerate(plan):
+        slow = dangling == 'slow'
+        if slow:
+            dangling = []
         files = gen_project(rng, seed + pi, n, dup_fragments=not dangling)
+        if slow:
+            # files whose PARSE takes seconds (a class cut off inside a comment full of `/*`: tree-sitter's error
+            # recovery is quadratic there), as many as there are workers, walked before the ordinary files: every
+            # worker handles an ordinary file right after a slow one
+            files = [('0slow/S%d.java' % k, ('public class S%d {\n  void before() { int q = %d + 2; }\n  /* ' % (k, k) + '/* x ' * 5200 + '\n').encode()) for k in range(5)] + files
+            stats['slow_parse_files'] += 5
         proj = '%s/p%d' % (work, pi)
         os.makedirs(proj, exist_ok=True)
         qrun.write_project(proj, files)
@@ -136,7 +147,7 @@ def check_c07(pid, tier, seed, res, work):
                 if rr.get('race'):
                     res.violations.append(dict(property='C07', what='data race during graph.Initialize', detail=rr['error'],
                                                project=[(p, d.decode('utf-8', 'replace')) for p, d in files], how='harness built with -race, `orders` on the project'))
-        r = orders_run(proj, work, 6 if tier == 'quick' else 30, seed + pi)
+        r = orders_run(proj, work, (1 if tier == 'quick' else 3) if slow else (6 if tier == 'quick' else 30), seed + pi)
         if 'error' in r:
             res.tie_broken.append('orders campaign could not run: ' + r['error'])
             return stats, samples
@@ -229,7 +240,7 @@ def check_c08(pid, tier, seed, res, work):
         # reference: F alone
         base = '%s/b%d' % (work, i)
         qrun.write_project(base, [F])
-        ctx_kind = ['copies', 'fragments', 'malformed', 'unreadable_file', 'unreadable_dir', 'dangling_symlink', 'decoys', 'callers', 'dir_symlinks', 'file_symlinks'][i % 10]
+        ctx_kind = ['copies', 'fragments', 'malformed', 'unreadable_file', 'unreadable_dir', 'dangling_symlink', 'decoys', 'callers', 'dir_symlinks', 'file_symlinks', 'same_names'][i % 11]
         ctx = []
         if ctx_kind == 'copies':
             ctx = [('src/Copy.java', F[1]), ('other/Target%d.java' % i, F[1])]
@@ -248,6 +259,15 @@ def check_c08(pid, tier, seed, res, work):
                 body = ' '.join('%s(%s);' % (nm, ', '.join(str(k) for k in range(n))) for nm, n in sigs)
                 decls = ' '.join('void %s(%s) { }' % (nm, ', '.join('int a%d' % k for k in range(n))) for nm, n in calls[:6])
                 ctx.append(('sib/S%d.java' % j, ('class S%d { void s%d() { %s } %s }' % (j, j, body, decls)).encode()))
+        elif ctx_kind == 'same_names':
+            # files of the SAME name in other directories (and names that differ by a leading character), the directory
+            # names spelled with letters of the project path itself, different contents
+            t2, _, _ = javagen.gen_unit(seed + 1300, i + 7, size=0.4)
+            letters = [ch for ch in dict.fromkeys('%s/v%d' % (work, i)) if ch.isalnum()]
+            d1, d2, d3 = ''.join(letters[:3]), ''.join(letters[2:5]), ''.join(reversed(letters[:4]))
+            nm = 'Target%d.java' % i
+            ctx = [('%s/%s' % (d1, nm), t2.encode()), ('%s/%s/%s' % (d2, d3, nm), b'class Other { int q = 1 + 2; }'), ('src/%s%s' % (letters[0], nm), t2.encode()),
+                   (nm, b'class Top { void t() { u(3); } }'), ('src/sub/%s' % nm, F[1] + b'\nclass Extra { }\n')]
         elif ctx_kind == 'decoys':
             ctx = [('src/x.JAVA', F[1]), ('src/y.jav', F[1]), ('src/java', F[1]), ('src/dir.java/inner.txt', b'x'), ('src/dir.java/In.java', b'class In { int z = 1 + 2; }')]
         else:
@@ -293,22 +313,38 @@ def check_c08(pid, tier, seed, res, work):
             o = '%s/dump_%s_%d.txt' % (work, name, i)
             open(o, 'w').close()
             os.chmod(o, 0o666)
-            cmd = [B + '/harness', 'init-dump', d, o]
+            # the project path is spelled differently from pair to pair: absolute, relative, with a trailing slash,
+            # with a `..` component, with `./`
+            spelled, cwd_ = d, None
+            if name == 'context' and not child_as_nobody:
+                sp = i % 5
+                bn = os.path.basename(d)
+                spelled, cwd_ = [(d, None), (bn, work), (d + '/', None), (d + '/../' + bn, None), ('./' + bn, work)][sp]
+                stats['spelling_%d' % sp] += 1
+            cmd = [B + '/harness', 'init-dump', spelled, o]
             if child_as_nobody and name == 'context':
                 cmd = ['setpriv', '--reuid=65534', '--regid=65534', '--clear-groups'] + cmd
-            rc, so, se = run(cmd, timeout=300, env=dict(ENV, HOME=work))
+            rc, so, se = run(cmd, timeout=300, env=dict(ENV, HOME=work), cwd=cwd_)
             if rc != 0:
                 res.tie_broken.append('init-dump failed (%s, %s): %s' % (ctx_kind, name, se.decode(errors='replace')[-200:]))
                 return stats, samples
             outs[name] = [l.rstrip('\n') for l in open(o)]
         # what is reported for F: entities whose file is F's path (paths differ by the project root)
         def for_file(lines, root):
-            path = os.path.join(root, F[0])
-            ph = 'file=x' + path.encode().hex() + ' '
-            nodes = sorted(l.replace(root.encode().hex(), 'ROOT') for l in lines if l.startswith('NODE ') and ph in l)
-            return nodes
+            # the entity's file is the path as walked from the project path AS SPELLED: compare by the real path
+            target = os.path.realpath(os.path.join(root, F[0]))
+            nodes = []
+            for l in lines:
+                if not l.startswith('NODE '):
+                    continue
+                m_ = re.search(r' file=x([0-9a-f]*) ', l)
+                fpath = bytes.fromhex(m_.group(1)).decode('utf-8', 'surrogateescape') if m_ else ''
+                if not os.path.isabs(fpath):
+                    fpath = os.path.join(work, fpath)
+                if os.path.normpath(fpath) == os.path.normpath(os.path.join(root, F[0])) and os.path.realpath(fpath) == target:
+                    nodes.append(l.replace(m_.group(0), ' file=FILE '))
+            return sorted(nodes)
         # identities contain the path, so compare the projected observables (everything but id)
-        import re
         def strip_id(l):
             return re.sub(r'^NODE id=[0-9a-f]+ ', 'NODE ', l)
         a = sorted(strip_id(l) for l in for_file(outs['alone'], base))
